@@ -9,9 +9,14 @@ returned value - the 'effect summary' the reader/writer, table, RPC and handle r
 compare.  Nothing is executed concretely and no solver is involved: predicates are
 compared after normalisation to  poly ⋈ 0.
 """
+import re
+
 from . import ir
 
 MAX_PATHS = 4000
+PURE = {'size', 'length', 'data', 'begin', 'end', 'cbegin', 'cend', 'capacity', 'remaining', 'index', 'c_str', 'get', 'error',
+        'empty', 'has_value', 'has_error', 'operator bool'}
+
 
 
 class Unsupported(Exception):
@@ -159,7 +164,13 @@ class Event:
 
     def __repr__(self):
         if self.kind == 'call':
-            return '%s%s(%s)' % ((self.obj + '.') if self.obj else '', self.name, ', '.join(repr(a) for a in self.args))
+            cls = ''
+            q = getattr(self, 'q', '') or ''
+            if not self.obj and q.startswith('nop::Encoding'):
+                cls = q[:q.rfind('::' + self.name)].replace('nop::EncodingIO', 'Enc').replace('nop::Encoding', 'Enc') + '::'
+                if len(cls) > 60:
+                    cls = cls[:57] + '..::'
+            return '%s%s%s(%s)' % ((self.obj + '.') if self.obj else '', cls, self.name, ', '.join(repr(a) for a in self.args))
         if self.kind == 'field':
             return 'this.%s := %r' % (self.field, self.value)
         if self.kind == 'store':
@@ -278,7 +289,24 @@ class Exec:
                 self.assign(tgt, new, p)
                 return old if e.get('post') else new
             if op == '&':
-                return Opaque('&' + self.txt(self.ev(e['e'], p)))
+                inner = self.ev(e['e'], p)
+                txt = self.txt(inner)
+                m = re.match(r'^(.*)\[(.*)\]$', txt)
+                if m and isinstance(inner, Opaque):
+                    # &base[i] == &base[0] + i   (element units)
+                    base = m.group(1).lstrip('*')
+                    sub = ir.strip_all_casts(e['e'])
+                    idx_e = None
+                    if sub.get('k') == 'idx':
+                        idx_e = sub['i']
+                    elif sub.get('k') == 'call' and sub.get('ck') == 'op' and len(sub.get('args', [])) == 2:
+                        idx_e = sub['args'][1]
+                    if idx_e is not None:
+                        saved = len(p.events)
+                        iv = self.ev(idx_e, p)
+                        del p.events[saved:]
+                        return Poly.atom('&%s[0]' % base) + as_poly(iv)
+                return Opaque('&' + txt)
             if op == '*':
                 return Opaque('*' + self.txt(self.ev(e['e'], p)))
             return Opaque(op + self.txt(self.ev(e['e'], p)))
@@ -428,7 +456,21 @@ class Exec:
                 return obj
             if name in ('get', 'take'):
                 return Opaque('value_of(%r)' % obj)
-        args = [self.ev(a, p) for a in e['args']]
+        if cal and name == 'operator=' and e.get('ck') == 'op' and len(e['args']) == 2:
+            tgt = ir.strip(e['args'][0])
+            if tgt.get('k') == 'ref' and tgt.get('dk') in ('local', 'param') and not tgt.get('t', '').endswith('*'):
+                v = self.ev(e['args'][1], p)
+                if isinstance(v, (StatusVal, Poly)) or is_status(tgt.get('t')):
+                    p.env[tgt['id']] = v
+                    return v
+        args = []
+        for a in e['args']:
+            a0 = ir.strip_all_casts(a)
+            if a0.get('k') == 'un' and a0.get('op') == '&' and ir.strip(a0['e']).get('k') == 'ref' and \
+                    ir.strip(a0['e']).get('dk') == 'local':
+                args.append(Opaque('&l:' + ir.strip(a0['e'])['n']))     # address of a local: an out-parameter
+            else:
+                args.append(self.ev(a, p))
         if cal and cal['q'].startswith('std::') and name in ('move', 'forward') and len(args) == 1:
             return args[0]
         callee = self.db.callee(self.fn, e) if self.db else None
@@ -440,9 +482,27 @@ class Exec:
                    q=cal['q'] if cal else '', ret=(cal or {}).get('ret', e.get('t')))
         p.events.append(self.mark(ev, p))
         idx = len(p.events) - 1
+        # a local whose address is passed to the callee holds a value produced by that call from here on
+        ev.outs = {}
+        for a in e['args']:
+            a0 = ir.strip_all_casts(a)
+            if a0.get('k') == 'un' and a0.get('op') == '&':
+                t0 = ir.strip(a0['e'])
+                if t0.get('k') == 'ref' and t0.get('dk') == 'local':
+                    sym = Poly.atom('d:%s#%d' % (t0['n'], idx))
+                    p.env[t0['id']] = sym
+                    ev.outs[t0['n']] = sym
         ret_t = (cal or {}).get('ret') or e.get('t')
         if is_status(ret_t) and not ret_t.rstrip().endswith('&'):
             return StatusVal('call', idx)
+        if name in PURE and objtxt and not args:
+            # pure accessor of an object: the same symbol every time it is called
+            return Opaque('%s.%s()' % (objtxt, name))
+        if name == 'operator[]' and e.get('ck') == 'op' and len(args) == 2:
+            return Opaque('%s[%s]' % (self.txt(args[0]).lstrip('*'), self.txt(args[1])))
+        if name == 'get' and not objtxt and cal and cal['q'].startswith('std::get') and len(args) == 1:
+            m = re.search(r'get<([^>]*)', cal['q'])
+            return Opaque('get<%s>(%s)' % (m.group(1) if m else '?', self.txt(args[0])))
         return Opaque('%s%s(%s)#%d' % ((objtxt + '.') if objtxt else '', name, ', '.join(self.txt(a) for a in args), idx))
 
     def inline_call(self, callee, e, args, obj, p):
